@@ -67,7 +67,16 @@ where
     /// Resolves a cursor to a begin aligned cursor, resolving all relative end-aligned positions
     fn beginaligned_cursor(&'slf self, cursor: &Cursor) -> Result<usize, StamError> {
         match *cursor {
-            Cursor::BeginAligned(cursor) => Ok(cursor),
+            Cursor::BeginAligned(cursor) => {
+                if cursor > self.textlen() {
+                    Err(StamError::CursorOutOfBounds(
+                        Cursor::BeginAligned(cursor),
+                        "beginaligned_cursor(): begin aligned cursor ends up after the end of the text",
+                    ))
+                } else {
+                    Ok(cursor)
+                }
+            }
             Cursor::EndAligned(cursor) => {
                 if cursor.abs() as usize > self.textlen() {
                     Err(StamError::CursorOutOfBounds(
